@@ -3,7 +3,8 @@
    Model: Sync/CondvarModel.v (abstract C05 mutex + to_wake FIFO + SyncBlocker handshake + Blocker token spec). *)
 From Coq Require Import List ZArith.
 Import ListNotations.
-Require Import MayV.Sync.CondvarModel MayV.Sync.CondvarInv MayV.Sync.CondvarL4 MayV.Sync.CondvarThm MayV.Sync.CondvarAccept.
+Require Import MayV.Sync.CondvarModel MayV.Sync.CondvarInv MayV.Sync.CondvarL4 MayV.Sync.CondvarThm MayV.Sync.CondvarAccept
+               MayV.Sync.BarrierModel MayV.Sync.BarrierThm MayV.Sync.WaitGroupModel MayV.Sync.WaitGroupThm.
 Open Scope Z_scope.
 
 (* ---- (i) notify_one / notify_all lose nothing ---- *)
@@ -91,6 +92,75 @@ Theorem C11_relock_cancel_disabled :
 Proof. exact relock_cancel_disabled. Qed.
 Print Assumptions C11_relock_cancel_disabled.
 
+(* ---- (iii) Barrier(n) as a client program (Sync/BarrierModel.v), for every n >= 1 ---- *)
+Close Scope Z_scope.
+
+(* a completed generation had exactly n arrivals and exactly one leader *)
+Theorem C11_barrier_generation_complete :
+  forall n, 1 <= n -> forall s g, BReach n s -> g < gen s -> arr s g = n /\ ldr s g = 1.
+Proof. exact barrier_generation_complete. Qed.
+Print Assumptions C11_barrier_generation_complete.
+
+(* generation g + 1 cannot complete - not even begin - before generation g has completed *)
+Theorem C11_barrier_generations_in_order :
+  forall n, 1 <= n -> forall s g, BReach n s -> gen s <= g -> arr s g < n /\ ldr s g = 0 /\ ret s g = 0 /\ (gen s < g -> arr s g = 0).
+Proof. exact barrier_generations_in_order. Qed.
+Print Assumptions C11_barrier_generations_in_order.
+
+(* nobody passes the barrier before all n parties of its generation have arrived *)
+Theorem C11_barrier_no_early_pass :
+  forall n, 1 <= n -> forall s g, BReach n s -> 0 < ret s g -> arr s g = n /\ ldr s g = 1.
+Proof. exact barrier_no_early_pass. Qed.
+Print Assumptions C11_barrier_no_early_pass.
+
+(* every arrival returned (leader or follower) or is still inside wait(): at most n returns per generation.
+   PARTIAL with respect to "exactly n arrivals return": that the followers still inside do return (they are flagged by the
+   leader's notify_all and not stranded) is given for the Condvar by C11_notify_all_reaches_everyone and
+   C11_notified_waiter_not_stranded, but is not composed into a barrier-level progress theorem *)
+Theorem C11_barrier_returns_accounted_partial :
+  forall n, 1 <= n -> forall s g, BReach n s ->
+  arr s g = ret s g + ldr s g + cntl g (lgen s) (inl s) /\ ret s g + ldr s g <= n.
+Proof. intros n H s g R. split; [exact (barrier_arrivals_accounted n H s g R) | exact (barrier_at_most_n_return n H s g R)]. Qed.
+Print Assumptions C11_barrier_returns_accounted_partial.
+
+(* count / generation_id are touched only by the holder of the barrier's mutex (uses C11.ii) *)
+Theorem C11_barrier_race_free :
+  forall n s, BReach n s -> viol s = false.
+Proof. exact barrier_race_free. Qed.
+Print Assumptions C11_barrier_race_free.
+
+(* ---- (iv) WaitGroup as a client program (Sync/WaitGroupModel.v) ---- *)
+
+Theorem C11_wg_count_is_live_handles :
+  forall s, WReach s -> wcnt s = length (hl s).
+Proof. exact wg_count_is_live_handles. Qed.
+Print Assumptions C11_wg_count_is_live_handles.
+
+(* wait() returns only when every handle has been dropped (count = 0), and zero is final.
+   PARTIAL with respect to "iff": that a waiter parked in cvar.wait when the count reaches 0 does return is the Condvar
+   progress statement (the last drop calls notify_all under the mutex), not composed into a wait-group-level theorem *)
+Theorem C11_wg_wait_returns_only_when_all_dropped_partial :
+  forall s a, WReach s -> wpc s a = WRet -> hl s = [] /\ wcnt s = 0.
+Proof. exact wg_wait_returns_only_when_all_dropped. Qed.
+Print Assumptions C11_wg_wait_returns_only_when_all_dropped_partial.
+
+Theorem C11_wg_never_returns_early :
+  forall s, WReach s -> early s = false.
+Proof. exact wg_never_returns_early. Qed.
+Print Assumptions C11_wg_never_returns_early.
+
+Theorem C11_wg_zero_is_final :
+  forall s a, hl s = [] ->
+  wstep s (WClone a) = None /\ wstep s (WDrop a) = None /\ (forall co, wstep s (WWait a co) = None) /\ (forall a', wstep s (WGive a a') = None).
+Proof. exact wg_zero_is_final. Qed.
+Print Assumptions C11_wg_zero_is_final.
+
+Theorem C11_wg_race_free :
+  forall s, WReach s -> wviol s = false.
+Proof. exact wg_race_free. Qed.
+Print Assumptions C11_wg_race_free.
+
+Open Scope Z_scope.
 (* ---- tie: every state along an accepted trace of the real Condvar is a reachable state of the model ---- *)
 Theorem C11_accepted_traces_are_model_runs :
   forall tr sx, accept_all m_init tr = Some sx -> Reach (fst sx).
@@ -108,3 +178,11 @@ Proof. exact forwarded_somewhere. Qed.
 Example C11_canceled_somewhere : exists s s', run_strict init sch_cancel = Some s /\ Reach s /\ apc (A s 0%nat) = C1 /\ mx s = Some 0%nat /\
   step s (Step 0%nat) = Some s' /\ apc (A s' 0%nat) = Dead /\ mx s' = None /\ pois s' = false.
 Proof. exact canceled_somewhere. Qed.
+Close Scope Z_scope.
+Example C11_barrier_two_generations : exists s, brun 2 binit (bgen 0 1 ++ bgen 1 0) = Some s /\ BReach 2 s /\
+  gen s = 2 /\ arr s 0 = 2 /\ arr s 1 = 2 /\ ldr s 0 = 1 /\ ldr s 1 = 1 /\ ret s 0 = 1 /\ ret s 1 = 1 /\ cnt s = 0 /\ inl s = [] /\ viol s = false /\
+  bpc s 0 = BIdle /\ bpc s 1 = BIdle /\ mx (cs s) = None.
+Proof. exact barrier_two_generations. Qed.
+Example C11_wg_wait_returns_somewhere : exists s, wrun winit wsched = Some s /\ WReach s /\
+  wpc s 0 = WRet /\ hl s = [] /\ wcnt s = 0 /\ wviol s = false /\ early s = false /\ mx (wcs s) = None /\ wpc s 1 = WIdle.
+Proof. exact wg_wait_returns_somewhere. Qed.
